@@ -277,13 +277,10 @@ def reload(case, lm, through_file):
         # the receiving instance has held other tables before (a unigram model, then a two-entry bigram model: smaller shape constants than most tables): load_state_dict
         # resizes the buffers and re-infers the shape constants every time
         toks = toks_of(case["V"], case["sos"])
-        other = [LookupLanguageModel(case["V"], case["sos"], [{t: (-1.0, -0.5) for t in toks},
+        # (the order-1 table is also the F37 signature when there are >= 258 unigram nodes: corpus/C06/f37_*.json)
+        other = [LookupLanguageModel(case["V"], case["sos"], [{t: -1.0 for t in range(case["V"])}]),
+                 LookupLanguageModel(case["V"], case["sos"], [{t: (-1.0, -0.5) for t in toks},
                                                                 {(a, toks[0]): -2.0 for a in toks[-2:]}])]
-        if len(toks) < 258:
-            # F37 (pending, corpus/C06/f37_unigram_vocab_258_numpy2.json.pending): an ORDER-1 table over >= 258 unigram
-            # nodes cannot be constructed under NumPy 2 (np.uint8(256) in _build_trie's `parents`); exactly that signature
-            # is left out of the detour until /repo is repaired
-            other.insert(0, LookupLanguageModel(case["V"], case["sos"], [{t: -1.0 for t in range(case["V"])}]))
         for o in other:
             lm2.load_state_dict(o.state_dict())
     lm2.load_state_dict(sd)
@@ -645,13 +642,18 @@ def small_dense_table(rng, V, sos, N, dens=0.6):
     return dicts
 
 
-def size_vocab_table(rng, V):
-    """extent = vocabulary size (M = B*V cells, vrange, ids dtype): few n-grams, all of them around the LAST token"""
+def size_vocab_table(rng, V, N=None):
+    """extent = vocabulary size (M = B*V cells, vrange, ids dtype): few n-grams, all of them around the LAST token.
+    N = 1: unigrams only (the bypass `last_logps.expand(B, V)`; with 258+ unigram nodes the F37 signature)"""
     sos = rng.choice([0, V - 1, V, -1])
-    N = rng.choice([2, 2, 3])
+    N = N or rng.choice([2, 2, 3])
     toks = toks_of(V, sos)
     last = V - 1
-    d1 = [[[t], dval(t), dbo(t)] for t in toks if t == last or t == sos or rng.random() < 0.97]
+    d1 = [[[t], dval(t), dbo(t) if N > 1 else 0] for t in toks if t == last or t == sos or rng.random() < 0.97]
+    if N == 1:
+        case = dict(kind="lm", V=V, sos=sos, dicts=[d1], opt=rng.choice([0, 1]), detour=False)
+        case["queries"] = [dict(hist=[[last, 0]], B=2, idx=None), dict(hist=[[last], [0]], B=1, idx=rng.choice([0, 2, -1]))]
+        return case
     pairs = {(last, last), (0, last), (last, 0), (sos, last), (last - 1, last), (last, last - 1), (15, 16), (16, 15)}
     while len(pairs) < 12:
         pairs.add((rng.choice(toks), rng.choice(toks)))
@@ -738,9 +740,8 @@ def size_children_table(rng, S, deep):
     for d in dicts:
         rng.shuffle(d)
     case = dict(kind="lm", V=V, sos=sos, dicts=dicts, opt=0, detour=rng.random() < 0.5)
-    ws = [kids[-1], kids[0], kids[15], kids[16], kids[-2]]
     other = [t for t in toks if t not in kids]
-    ws.append(other[0] if other else kids[S // 2])
+    ws = [kids[-1], kids[0], rng.choice([kids[15], kids[16], kids[-2]]), other[0] if other else kids[S // 2]]
     cols = [ctx(w) for w in ws]
     big = S > 200
     if big:
@@ -748,8 +749,8 @@ def size_children_table(rng, S, deep):
     T, B = len(cols[0]), len(cols)
     qs = [dict(hist=cols_to_hist(cols), B=B, idx=T, idx_form=rng.choice(["int", "t0", "t1"]))]
     if not big:
-        qs.append(dict(hist=cols_to_hist(cols[:2]), B=2, idx=None))
-        qs.append(dict(hist=cols_to_hist(cols[::-1][:3]), B=3, idx=[T, T - 1, T]))
+        qs.append(dict(hist=cols_to_hist(cols[:1]), B=1, idx=None))
+        qs.append(dict(hist=cols_to_hist(cols[::-1][:2]), B=2, idx=[T, T - 1]))
     case["queries"] = qs
     return case
 
@@ -850,19 +851,21 @@ def size_order_table(rng, N):
 
 def size_cases(rng, tier):
     """quick, per extent: 17 (first size an unstable sort / topk permutes), 33, 64 (a full block), 129 (first index an
-    int8 cannot hold) always, one or two of the other sizes next to 32 / 64 / 128 and one of 256 / 257 (uint8) in turn
-    with the seed; thorough: every size of SIZES and SIZES_BIG for every extent, twice"""
+    int8 cannot hold) always, one of 256 / 257 (uint8) and - for the cheap extents - one of the other sizes next to
+    32 / 64 / 128 in turn with the seed; thorough: every size of SIZES and SIZES_BIG for every extent, twice"""
     out = []
     thorough = tier == "thorough"
-    gens = [("batch", size_batch_table, 2), ("time", size_time_table, 2), ("chunk", size_chunk_table, 2),
-            ("ngrams", lambda r, s: size_ngrams_table(r, s, r.choice([2, 3])), 1), ("vocab", size_vocab_table, 1),
-            ("children", lambda r, s: size_children_table(r, s, deep=r.random() < 0.4), 1)]
+    gens = [("batch", size_batch_table, 1), ("time", size_time_table, 1), ("chunk", size_chunk_table, 1),
+            ("ngrams", lambda r, s: size_ngrams_table(r, s, r.choice([2, 3])), 0), ("vocab", size_vocab_table, 0),
+            ("children", lambda r, s: size_children_table(r, s, deep=r.random() < 0.4), 0)]
     for rep in range(2 if thorough else 1):
         for name, gen, extra in gens:
             sizes = SIZES + SIZES_BIG if thorough else \
                 [17, 33, 64, 129] + rng.sample([31, 32, 63, 65, 127, 128], extra) + [rng.choice([256, 257])]
             for s in sizes:
                 out.append((gen(rng, s), "size:" + name))
+        for s in ([129, 256, 257, 258, 300] if thorough else [rng.choice([257, 258, 259])]):
+            out.append((size_vocab_table(rng, s, N=1), "size:vocab"))
         for n in ([9, 17, 33] if thorough else [17]):
             out.append((size_order_table(rng, n), "size:order"))
     return out
@@ -947,7 +950,7 @@ def table_terms(case, res):
     # near the bound) the buffers are tied to the table by check_build alone (= the model of _build_trie, whose output
     # is PROVED TrieOK for every well-formed table: c06_build_trie_ok)
     ntab = sum(len(d) for d in case["dicts"])
-    validator = "trie_okb b sh (tmap sh t) && " if (case["V"] + 1) * b["S"] * ntab <= 1500000 else ""
+    validator = "trie_okb b sh (tmap sh t) && " if (case["V"] + 1) * b["S"] * ntab <= 250000 else ""
     t1 = ("(" + pre + validator + "tab_okb (vocab sh) (sos sh) t"
           f" && check_build {cz(case['V'])} {cz(case['sos'])} {c_dicts(case['dicts'])} {impl_build}"
           f" && check_infer {cz(case['V'])} {cz(case['sos'])} b {impl_inf})")
@@ -1347,6 +1350,53 @@ def int16_boundary_check(chk, V, nbig, sos):
         chk.report(rec)
 
 
+def ids_boundary_check(chk, V, sos):
+    """vocabulary at the int16 limit of the `ids` buffer (U = V + shift + 1 in {32766, 32767, 32768}: int16 up to
+    32767, then int32), implementation side only (32k unigrams are too many for vm_compute; fan-out <= 4 so queries
+    are cheap): a handful of bigrams around the LAST token and the start symbol, full rows compared with the Python
+    recursion; the dtype of ids must be the narrowest that holds U (the model's int_width)."""
+    last = V - 1
+    d1 = [[[t], dval(t % 4001), dbo(t)] for t in range(V)]
+    pairs = sorted({(last, last), (0, last), (last, 0), (sos, last), (last - 1, last), (last, last - 1), (255, 256), (32766 % V, 1)})
+    d2 = [[list(p), dval(5000 + i), 0] for i, p in enumerate(pairs)]
+    case = dict(kind="lm", V=V, sos=sos, dicts=[d1, d2], detour=False)
+    tab = {tuple(k): (p, b) for d in case["dicts"] for k, p, b in d}
+    U = V + (0 if 0 <= sos < V else 1) + 1
+    rec = {"case": dict(kind="ids-boundary", V=V, sos=sos)}
+    chk.note_case(rec["case"], True, "ids-boundary")
+    why, only_dtype = None, False
+    try:
+        lm = build(case)
+        cols = [[last], [0], [sos], [last - 1], [255], [1]]
+        h = ht(cols_to_hist(cols), len(cols))
+        full = lm(h)
+        at1 = idx_result(lm(h, idx=torch.tensor([1, 0, 1, 1, 0, 1])))
+        lm2 = reload(case, lm, False)
+        if full.shape != (2, len(cols), V) or not torch.equal(lm2(h), full):
+            why = "shape of the result / reloaded model differs"
+        for bi, c in enumerate(cols):
+            for i in ((0, 1) if bi == 0 else (1,)):
+                ctx = py_context(2, sos, c[:i])
+                row = full[i, bi].tolist()
+                want = [py_katz(tab, ctx, v) for v in range(V)]
+                got = [enc(x) for x in row]
+                if got != want:
+                    v = next(v for v in range(V) if got[v] != want[v])
+                    why = "history %r token %d: got %r, recursion gives %r" % (ctx, v, got[v], want[v])
+            if not torch.equal(at1[bi], full[[1, 0, 1, 1, 0, 1][bi], bi]):
+                why = "per-element idx differs from the all-positions result (history %r)" % (c,)
+        width = WIDTH.get(str(lm.ids.dtype), 9)
+        chk.count("ids-boundary:ids_width=%d" % width)
+        chk.extra.setdefault("ids_boundary", []).append(dict(V=V, sos=sos, U=U, ids_width=width, ok=why is None))
+        if why is None and width != (0 if U <= 255 else 1 if U <= 32767 else 2):
+            why, only_dtype = "ids dtype width %d for U = %d (narrowest type holding U expected)" % (width, U), True
+    except Exception as e:  # noqa: BLE001
+        why = "exception " + exc_kind(e) + ": " + str(e)[:200]
+    if why is not None:
+        rec["what"] = "vocabulary at the int16 limit of the ids buffer (U = %d): %s" % (U, why)
+        chk.report(rec, no_failing_input=only_dtype)
+
+
 def huge_table_check(chk, seed, nbig, packed=None):
     import random
     rng = random.Random(int(seed) * 1000003 + nbig)   # self-contained, so a replay rebuilds the same table
@@ -1490,11 +1540,15 @@ def run(chk, cases=None):
     cases = cases if replaying else gen_cases(chk)
     terms, owners = [], []
     results = []
+    import time
+    spent = chk.extra.setdefault("implementation_seconds_by_stream", {})
     for ci, (case, stream) in enumerate(cases):
         if case["kind"] == "lm":
+            t_case = time.time()
             res = run_table(case)
             results.append(res)
             tt = table_terms(case, res)
+            spent[stream] = round(spent.get(stream, 0) + time.time() - t_case, 2)
             terms += tt
             owners += [(ci, k) for k in range(3)]
             chk.note_case(case, nontrivial(case), stream)
@@ -1581,6 +1635,9 @@ def run(chk, cases=None):
         # S + T - 1 in {32766, 32767}; sos inside / outside the vocabulary alternate with the seed
         for V, nbig, sos in (((16384, 16383, 0), (16383, 16384, 16383)) if chk.seed % 2 else ((16383, 16383, 16383), (16384, 16384, 0))):
             int16_boundary_check(chk, V, nbig, sos)
+        # U = V + shift + 1 in {32766, 32767, 32768}: ids int16 -> int32
+        for V, sos in (((32766, 0), (32766, -1)) if chk.seed % 2 else ((32766, 32766), (32767, 0))):
+            ids_boundary_check(chk, V, sos)
 
 
 # ----------------------------------------------------------------------------------------
@@ -1631,6 +1688,8 @@ def source_tie(chk, cases, results):
                 continue
             if o == "exc:history-modified-in-place":
                 continue
+            if len(q["hist"]) * q["B"] > 600:
+                continue    # size-threshold stream: the interpreted source is run up to B ~ 64 / T ~ 200 (cost)
             terms.append("(" + pre + src_query_term(q, o) + ")")
             owners.append((ci, qi))
             any_q = True
@@ -1694,5 +1753,8 @@ def replay(chk, path):
         return
     if case.get("kind") == "int16-boundary":
         int16_boundary_check(chk, case["V"], case["nbig"], case["sos"])
+        return
+    if case.get("kind") == "ids-boundary":
+        ids_boundary_check(chk, case["V"], case["sos"])
         return
     run(chk, [(case, "replay")])
